@@ -273,6 +273,34 @@ func c02(r *core.Report, p *core.Prog, thorough bool) {
 							g, what = gg, "map-update"
 						}
 					}
+				case *ssa.Call:
+					// a mutating method / atomic operation on a package-level object
+					name := core.CalleeName(x.Common())
+					mut := false
+					switch name {
+					case "(*sync.Map).Store", "(*sync.Map).Delete", "(*sync.Map).LoadOrStore", "(*sync.Map).LoadAndDelete", "(*sync.Map).Swap", "(*sync.Map).CompareAndSwap", "(*sync.Map).CompareAndDelete":
+						mut = true
+					}
+					if strings.HasPrefix(name, "sync/atomic.Store") || strings.HasPrefix(name, "sync/atomic.Add") || strings.HasPrefix(name, "sync/atomic.Swap") || strings.HasPrefix(name, "sync/atomic.CompareAndSwap") {
+						mut = true
+					}
+					if strings.HasPrefix(name, "(*sync/atomic.") && (strings.HasSuffix(name, ").Store") || strings.HasSuffix(name, ").Add") || strings.HasSuffix(name, ").Swap") || strings.HasSuffix(name, ").CompareAndSwap")) {
+						mut = true
+					}
+					if mut && len(x.Call.Args) > 0 {
+						recv := x.Call.Args[0]
+						if gg, ok := recv.(*ssa.Global); ok {
+							g, what = gg, name
+						} else if l, ok := recv.(*ssa.UnOp); ok {
+							if gg, ok := l.X.(*ssa.Global); ok {
+								g, what = gg, name
+							}
+						} else if fa, ok := recv.(*ssa.FieldAddr); ok {
+							if gg, ok := fa.X.(*ssa.Global); ok {
+								g, what = gg, name
+							}
+						}
+					}
 				}
 				if g == nil {
 					continue
